@@ -100,8 +100,11 @@ def bounded_checks(reg, tier, seed):
             continue        # body would have to be chunk-encoded by the caller
         if nocl and body and not cc:
             continue        # caller's choice: close-delimited needs Connection: close
-        pkt = build_http_response(200, reason=reason, headers=(dict(hs) if hs is not None else None), body=body,
-                                  conn_close=cc, no_cl=nocl)
+        hs2 = dict(hs) if hs is not None else None
+        for k in list(hs2 or {}):
+            if k.lower() == b'content-length':      # a caller-supplied length is the caller's claim: keep it truthful
+                hs2[k] = b'%d' % len(body or b'')
+        pkt = build_http_response(200, reason=reason, headers=hs2, body=body, conn_close=cc, no_cl=nocl)
         n += 1
         e = check(pkt, body or b'', 'build_http_response(headers=%r, body=%d bytes, conn_close=%s, no_cl=%s)' % (
             hs, len(body or b''), cc, nocl))
